@@ -26,16 +26,15 @@ func isHexDigit(c byte) bool {
 }
 
 func hexClass(s []byte) string {
-	cls := "even-length"
-	if len(s)%2 == 1 {
-		cls = "odd-length"
-	}
 	for _, c := range s {
 		if !isHexDigit(c) {
-			return cls + ",invalid-char"
+			return "invalid-char"
 		}
 	}
-	return cls + ",hex-digits"
+	if len(s)%2 == 1 {
+		return "hex-digits,odd-length"
+	}
+	return "hex-digits,even-length"
 }
 
 // ---- hex encode ----
@@ -62,19 +61,14 @@ func hexEncodeCase(r *common.Run, x []byte, c *counter) {
 	if string(x) != orig {
 		r.Violation("HexEncode[[]byte]|input-modified|bytes", fmt.Sprintf("HexEncode changed its input %q to %q", orig, x), in(), test)
 	}
+	if string(g2) != string(g1) || g3 != string(g1) || g4 != string(g1) {
+		r.Violation("HexEncode|forms-disagree|bytes", fmt.Sprintf("input %q: HexEncode([]byte) = %q, HexEncode(string) = %q, HexEncodeToString([]byte) = %q, HexEncodeToString(string) = %q", orig, g1, g2, g3, g4), in(), test)
+	}
 	if string(g1) != want {
-		r.Violation("HexEncode[[]byte]|wrong-encoding|bytes", fmt.Sprintf("HexEncode([]byte(%q)) = %q, want %q", orig, g1, want), in(), test)
+		r.Violation("HexEncode|wrong-encoding|bytes", fmt.Sprintf("HexEncode([]byte(%q)) = %q, want %q", orig, g1, want), in(), test)
+		return
 	}
-	if string(g2) != want {
-		r.Violation("HexEncode[string]|wrong-encoding|bytes", fmt.Sprintf("HexEncode(%q) = %q, want %q", orig, g2, want), in(), test)
-	}
-	if g3 != want {
-		r.Violation("HexEncodeToString[[]byte]|wrong-encoding|bytes", fmt.Sprintf("HexEncodeToString([]byte(%q)) = %q, want %q", orig, g3, want), in(), test)
-	}
-	if g4 != want {
-		r.Violation("HexEncodeToString[string]|wrong-encoding|bytes", fmt.Sprintf("HexEncodeToString(%q) = %q, want %q", orig, g4, want), in(), test)
-	}
-	// round trip (follows from agreement with encoding/hex on both directions)
+	// round trip (follows from agreement with encoding/hex in both directions)
 	var back []byte
 	var berr error
 	if guarded(r, "HexDecode", in, func() { back, berr = strz.HexDecode(g1) }) {
@@ -104,10 +98,8 @@ func hexDecodeCase(r *common.Run, x []byte, c *counter) {
 }`, orig, orig)
 	cmp := func(entry string, got []byte, gerr error) {
 		switch {
-		case (gerr != nil) != (werr != nil):
-			r.Violation(entry+"|error-ness|"+cls, fmt.Sprintf("%s(%q) = %q, %v; encoding/hex gives %q, %v", entry, orig, got, gerr, want, werr), in(), test)
-		case !bytes.Equal(got, want):
-			r.Violation(entry+"|wrong-bytes|"+cls, fmt.Sprintf("%s(%q) = %q, %v; encoding/hex gives %q, %v", entry, orig, got, gerr, want, werr), in(), test)
+		case (gerr != nil) != (werr != nil) || !bytes.Equal(got, want):
+			r.Violation(entry+"|wrong-result|"+cls, fmt.Sprintf("%s(%q) = %q, %v; encoding/hex gives %q, %v", entry, orig, got, gerr, want, werr), in(), test)
 		case errText(gerr) != errText(werr):
 			r.Violation(entry+"|error-text|"+cls, fmt.Sprintf("%s(%q) error %q; encoding/hex says %q", entry, orig, errText(gerr), errText(werr)), in(), test)
 		}
@@ -125,10 +117,10 @@ func hexDecodeCase(r *common.Run, x []byte, c *counter) {
 			r.Violation("HexDecode[[]byte]|input-modified|"+cls, fmt.Sprintf("HexDecode changed its input %q to %q", orig, x), in(), test)
 			copy(x, orig)
 		}
-		cmp("HexDecode[[]byte]", g1, e1)
-		cmp("HexDecode[string]", g2, e2)
-		cmp("HexDecodeToString[[]byte]", []byte(g3), e3)
-		cmp("HexDecodeToString[string]", []byte(g4), e4)
+		if !bytes.Equal(g2, g1) || g3 != string(g1) || g4 != string(g1) || errText(e2) != errText(e1) || errText(e3) != errText(e1) || errText(e4) != errText(e1) {
+			r.Violation("HexDecode|forms-disagree|"+cls, fmt.Sprintf("input %q: HexDecode([]byte) = %q, %v; HexDecode(string) = %q, %v; HexDecodeToString([]byte) = %q, %v; HexDecodeToString(string) = %q, %v", orig, g1, e1, g2, e2, g3, e3, g4, e4), in(), test)
+		}
+		cmp("HexDecode", g1, e1)
 	}
 	// in place: only the count, the decoded prefix b[:n] and the error are specified
 	b := []byte(orig)
@@ -222,11 +214,12 @@ func b64EncodeCase(r *common.Run, x []byte, c *counter) {
 			r.Violation("Base64Encode[[]byte]|input-modified|"+e.name, fmt.Sprintf("Base64Encode changed its input %q to %q", orig, x), in(), test)
 			copy(x, orig)
 		}
-		for i, g := range []string{string(g1), string(g2), g3, g4} {
-			if g != want {
-				entry := []string{"Base64Encode[[]byte]", "Base64Encode[string]", "Base64EncodeToString[[]byte]", "Base64EncodeToString[string]"}[i]
-				r.Violation(entry+"|wrong-encoding|"+e.name, fmt.Sprintf("%s(%q, %s) = %q, want %q", entry, orig, e.name, g, want), in(), test)
-			}
+		if string(g2) != string(g1) || g3 != string(g1) || g4 != string(g1) {
+			r.Violation("Base64Encode|forms-disagree|"+e.name, fmt.Sprintf("input %q, %s: Base64Encode([]byte) = %q, Base64Encode(string) = %q, Base64EncodeToString([]byte) = %q, Base64EncodeToString(string) = %q", orig, e.name, g1, g2, g3, g4), in(), test)
+		}
+		if string(g1) != want {
+			r.Violation("Base64Encode|wrong-encoding|"+e.name, fmt.Sprintf("Base64Encode([]byte(%q), %s) = %q, want %q", orig, e.name, g1, want), in(), test)
+			continue
 		}
 		var back []byte
 		var berr error
@@ -270,17 +263,14 @@ func b64DecodeCase(r *common.Run, x []byte, c *counter) {
 			r.Violation("Base64Decode[[]byte]|input-modified|"+e.name+","+cls, fmt.Sprintf("Base64Decode changed its input %q to %q", orig, x), in(), test)
 			copy(x, orig)
 		}
-		gots := [][]byte{g1, g2, []byte(g3), []byte(g4)}
-		errs := []error{e1, e2, e3, e4}
-		for i, entry := range []string{"Base64Decode[[]byte]", "Base64Decode[string]", "Base64DecodeToString[[]byte]", "Base64DecodeToString[string]"} {
-			switch {
-			case (errs[i] != nil) != (werr != nil):
-				r.Violation(entry+"|error-ness|"+e.name+","+cls, fmt.Sprintf("%s(%q, %s) = %q, %v; encoding/base64 gives %q, %v", entry, orig, e.name, gots[i], errs[i], want, werr), in(), test)
-			case !bytes.Equal(gots[i], want):
-				r.Violation(entry+"|wrong-bytes|"+e.name+","+cls, fmt.Sprintf("%s(%q, %s) = %q, %v; encoding/base64 gives %q, %v", entry, orig, e.name, gots[i], errs[i], want, werr), in(), test)
-			case errText(errs[i]) != errText(werr):
-				info.add("Base64Decode: error text differs from encoding/base64", fmt.Sprintf("(%q,%s): %q vs %q", orig, e.name, errText(errs[i]), errText(werr)))
-			}
+		if !bytes.Equal(g2, g1) || g3 != string(g1) || g4 != string(g1) || (e2 != nil) != (e1 != nil) || (e3 != nil) != (e1 != nil) || (e4 != nil) != (e1 != nil) {
+			r.Violation("Base64Decode|forms-disagree|"+e.name+","+cls, fmt.Sprintf("input %q, %s: Base64Decode([]byte) = %q, %v; Base64Decode(string) = %q, %v; Base64DecodeToString([]byte) = %q, %v; Base64DecodeToString(string) = %q, %v", orig, e.name, g1, e1, g2, e2, g3, e3, g4, e4), in(), test)
+		}
+		switch {
+		case (e1 != nil) != (werr != nil) || !bytes.Equal(g1, want):
+			r.Violation("Base64Decode|wrong-result|"+e.name+","+cls, fmt.Sprintf("Base64Decode(%q, %s) = %q, %v; encoding/base64 gives %q, %v", orig, e.name, g1, e1, want, werr), in(), test)
+		case errText(e1) != errText(werr):
+			info.add("Base64Decode: error text differs from encoding/base64", fmt.Sprintf("(%q,%s): %q vs %q", orig, e.name, errText(e1), errText(werr)))
 		}
 	}
 }
